@@ -518,3 +518,183 @@ pub fn put_commute<S: Src, const N: usize>(s: &mut S) {
     let _ = c.put(e2).unwrap();
     ck!(s, c.same_set(&a), "repeating puts changes nothing (idempotence)");
 }
+
+// ---------------------------------------------------------------------------------------------
+// process_message over L (C01 lemmas L1, L2, L4, L5; C03 gating; C12 on_insert contract)
+// ---------------------------------------------------------------------------------------------
+use crate::ranger::{Message, MessagePart, RangeFingerprint, RangeItem, SyncConfig};
+use crate::ContentStatus;
+use std::future::Future;
+use std::pin::pin;
+use std::task::{Context, Poll, Waker};
+
+/// Poll once with a no-op waker: every future in these harnesses is ready immediately (the
+/// callbacks are `std::future::ready`); a `Pending` would be a bug of the harness.
+pub fn poll_once<F: Future>(f: F) -> Option<F::Output> {
+    let mut f = pin!(f);
+    let mut cx = Context::from_waker(Waker::noop());
+    match f.as_mut().poll(&mut cx) {
+        Poll::Ready(v) => Some(v),
+        Poll::Pending => None,
+    }
+}
+
+fn cfg(max_set_size: usize, split_factor: usize) -> SyncConfig {
+    // private fields of a crate-private struct: same crate, so constructible here
+    unsafe { std::mem::transmute::<(usize, usize), SyncConfig>((max_set_size, split_factor)) }
+}
+
+pub struct Log<const M: usize> {
+    pub n: usize,
+    pub items: [Option<LE>; M],
+}
+
+/// run `process_message` with: validate = accept unless the entry equals `reject`; on_insert logs
+fn run_pm<const N: usize, const M: usize>(
+    st: &mut LStore<N>,
+    config: &SyncConfig,
+    msg: Message<LE>,
+    reject: Option<LE>,
+) -> (Option<Option<Message<LE>>>, Log<M>) {
+    let log = std::cell::RefCell::new(Log::<M> { n: 0, items: [None; M] });
+    let res = poll_once(st.process_message(
+        config,
+        msg,
+        |_st: &LStore<N>, e: &LE, _cs: ContentStatus| Some(*e) != reject,
+        |_st: &LStore<N>, e: LE, _cs: ContentStatus| {
+            let mut l = log.borrow_mut();
+            if l.n < M {
+                let n = l.n;
+                l.items[n] = Some(e);
+            }
+            l.n += 1;
+            std::future::ready(())
+        },
+        |_e: &LE| std::future::ready(ContentStatus::Complete),
+    ));
+    let res = res.map(|r| r.unwrap());
+    (res, log.into_inner())
+}
+
+/// L1 item step: arbitrary store, one `RangeItem` part with V values (arbitrary range,
+/// `have_local` symbolic).  Afterwards the store is the join of store and values (in message
+/// order); `on_insert` fired exactly for the admitted entries, in order; an entry rejected by the
+/// validate callback is never stored nor announced and the rest is processed as if it were
+/// absent; the reply, if requested, is exactly the local entries in the range not dominated by a
+/// received entry with the same key.
+pub fn pm_item_step<S: Src, const N: usize, const V: usize>(s: &mut S) {
+    let pre: LStore<N> = LStore::any(s, N - V);
+    let range = Range::new(LK::any(s), LK::any(s));
+    let have_local = s.bool();
+    let mut vals: [LE; V] = [LE { key: LK::default(), value: 0 }; V];
+    let mut i = 0;
+    while i < V {
+        vals[i] = LE::any(s);
+        i += 1;
+    }
+    let reject = if s.bool() { Some(vals[0]) } else { None };
+    let values: Vec<(LE, ContentStatus)> = vals.iter().map(|e| (*e, ContentStatus::Missing)).collect();
+    let msg: Message<LE> = mk_message(vec![MessagePart::RangeItem(RangeItem { range: range.clone(), values, have_local })]);
+    let config = cfg(1, 2);
+    let mut st = pre;
+    // the reply is computed from the store BEFORE the incoming values are applied
+    let (res, log) = run_pm::<N, 4>(&mut st, &config, msg, reject);
+    let Some(reply) = res else {
+        ck!(s, false, "process_message completes without waiting (all callbacks are ready)");
+        return;
+    };
+    // oracle: apply the accepted values in order with the join
+    let mut want = pre;
+    let mut want_log = Log::<4> { n: 0, items: [None; 4] };
+    let mut i = 0;
+    while i < V {
+        let e = vals[i];
+        if Some(e) != reject && oracle_admits(&want, &e) {
+            let mut j = 0;
+            while j < N {
+                if let Some(x) = want.slots[j] {
+                    if !oracle_survives(&x, &e) {
+                        want.slots[j] = None;
+                    }
+                }
+                j += 1;
+            }
+            let _ = want.entry_put(e);
+            let n = want_log.n;
+            want_log.items[n] = Some(e);
+            want_log.n += 1;
+        }
+        i += 1;
+    }
+    cv!(s, want_log.n == V && V > 0, "pm_item_step: every value admitted");
+    cv!(s, reject.is_some(), "pm_item_step: a value rejected by validation");
+    ck!(s, st.same_set(&want), "after an item part the store is the join of the store and the accepted values");
+    ck!(s, log.n == want_log.n && log.items == want_log.items, "on_insert fires exactly once per admitted entry, in order");
+    // reply
+    let mut n_expected = 0;
+    let mut ok = true;
+    let mut j = 0;
+    while j < N {
+        if let Some(x) = pre.slots[j] {
+            let dominated = vals.iter().any(|t| t.key == x.key && t.value >= x.value);
+            if in_range(&range, &x.key) && !dominated {
+                n_expected += 1;
+                ok &= match &reply {
+                    Some(m) => m.values().any(|(e, _)| *e == x),
+                    None => false,
+                };
+            }
+        }
+        j += 1;
+    }
+    cv!(s, !have_local && n_expected > 0, "pm_item_step: a reply with local entries");
+    if have_local || n_expected == 0 {
+        ck!(s, reply.is_none(), "no reply when the peer already has our entries or there is nothing to send");
+    } else {
+        ck!(s, ok, "the reply contains every local entry of the range that is not dominated by a received one");
+        let m = reply.as_ref().unwrap();
+        ck!(s, m.value_count() == n_expected && m.parts().len() == 1, "the reply contains nothing else");
+        if let MessagePart::RangeItem(it) = &m.parts()[0] {
+            ck!(s, it.have_local && it.range == range, "the reply is an item part for the same range marked have_local");
+        } else {
+            ck!(s, false, "the reply to an item part is an item part");
+        }
+    }
+    std::mem::forget(reply);
+}
+
+fn mk_message(parts: Vec<MessagePart<LE>>) -> Message<LE> {
+    // Message { parts } has a private field; same-crate transmute of the single-field struct
+    unsafe { std::mem::transmute::<Vec<MessagePart<LE>>, Message<LE>>(parts) }
+}
+
+/// L4 initial message + L5 silence: the initial message is one fingerprint part over the full
+/// range carrying the fingerprint of the whole store; a store with the same entries answers it
+/// with nothing.
+pub fn pm_init_and_silence<S: Src, const N: usize>(s: &mut S) {
+    let mut a: LStore<N> = LStore::any(s, N);
+    let m = a.initial_message().unwrap();
+    ck!(s, m.parts().len() == 1, "the initial message has exactly one part");
+    let MessagePart::RangeFingerprint(fp) = &m.parts()[0] else {
+        ck!(s, false, "the initial message is a fingerprint part");
+        return;
+    };
+    ck!(s, fp.range.is_all(), "the initial message covers the full range");
+    let mut all = Fingerprint::empty();
+    let mut i = 0;
+    while i < N {
+        if let Some(e) = a.slots[i] {
+            all ^= e.as_fingerprint();
+        }
+        i += 1;
+    }
+    ck!(s, fp.fingerprint == all, "the initial fingerprint is that of the whole store");
+    // a store holding the same set (any slot arrangement) stays silent
+    let mut b: LStore<N> = LStore::any(s, N);
+    s.assume(a.same_set(&b));
+    let config = cfg(1, 2);
+    let (res, log) = run_pm::<N, 2>(&mut b, &config, m, None);
+    cv!(s, a.count() >= 2, "pm_init_and_silence: at least two entries");
+    ck!(s, matches!(res, Some(None)), "an immediately following session between equal replicas sends nothing back");
+    ck!(s, log.n == 0 && b.same_set(&a), "and transfers no entries");
+}
